@@ -40,8 +40,14 @@ func runC13(t *testing.T, prop string, seed uint64, tier string, replay *hcommon
 	r := simrt.NewRand(simrt.Mix(seed, 13))
 	p := &c13Plan{Tasks: 2 + r.Intn(5), Initial: r.Intn(3), Sticky: pick(r, 0, 0.5, 0.9)}
 	nstates := 2 + r.Intn(3) // a small state alphabet so that attempts collide
+	// a node that lives long: neighbours join and leave dozens of times, the history grows well beyond a handful of entries
+	long := r.Chance(0.25)
 	for task := 0; task < p.Tasks; task++ {
-		for i := 0; i < 3+r.Intn(8); i++ {
+		nops := 3 + r.Intn(8)
+		if long {
+			nops = 25 + r.Intn(40)
+		}
+		for i := 0; i < nops; i++ {
 			op := c13Op{Task: task, Kind: pick(r, "transition", "transition", "transition", "set", "get", "history"), Exp: r.Intn(nstates), Nxt: r.Intn(nstates)}
 			p.Ops = append(p.Ops, op)
 		}
